@@ -1018,6 +1018,8 @@ pub fn run(seed: u64, count: usize, prefix: &str) {
             let mut rng = Rng::new(crate::tape::mix3(seed, i as u64, kind.len() as u64));
             let id = format!("scn extras-{}-{}-{}", kind, seed, i);
             writeln!(ops, "{}", id).unwrap();
+            // a scenario that crashes or hangs the process is named by the last line of this file
+            ops.flush().unwrap();
             let r = std::panic::catch_unwind(std::panic::AssertUnwindSafe(|| match kind {
                 "xhash-sets" => xhash_sets(&mut rng),
                 "xhash-maps" => xhash_maps(&mut rng),
